@@ -1,67 +1,71 @@
 #!/usr/bin/env python3
 """Probe the axiom base for inconsistency (DESIGN 2.7): an inconsistent axiom set proves every obligation.
 
-z3 (default configuration, model-based quantifier instantiation) and cvc5 are asked to refute the axioms alone: all together,
-each theory group, and every axiom together with the structural core.  `unsat` anywhere is a failure (exit 1) and the
-offending subset is minimised and printed; `sat`/`unknown` proves nothing but is the expected answer.
-usage: python3-vt tools/axiom_consistency.py [--timeout MS]"""
-import os, sys, time
+z3's default configuration (model-based quantifier instantiation: the mode able to find instances E-matching never tries) is asked to
+refute (a) all axioms together, (b) every window of consecutive axioms (they are registered theory by theory), (c) the axiom sets
+actually used by the verification conditions of every registered property (sampled).  `unsat` anywhere is a failure (exit 1) and the
+offending subset is minimised and printed; `sat`/`unknown` proves nothing but is the expected answer.  All queries run in parallel.
+usage: python3-vt tools/axiom_consistency.py [--timeout MS] [--window N] [--stride N]"""
+import concurrent.futures as cf, multiprocessing as mp, os, sys, time
 sys.path.insert(0, os.path.dirname(os.path.dirname(os.path.abspath(__file__))))
 import z3
 import contracts
 from pyvc.source import Repo
 from pyvc.stmts import Exec
-from pyvc.solve import to_smt2, _attempt, run_cvc5
+from pyvc.solve import to_smt2, _attempt
+
+AX = []
 
 
-def refuted(forms, timeout_ms):
-    text, _ = to_smt2(forms)
-    r = _attempt(text, timeout_ms, True, True)[0]
-    if r == "unsat":
-        return "z3"
-    r2 = _attempt(text, timeout_ms // 2, False, False)[0]
-    if r2 == "unsat":
-        return "z3-ematch"
-    return None
+def job(arg):
+    label, idxs, timeout = arg
+    text, _ = to_smt2([AX[i][1] for i in idxs])
+    return label, idxs, _attempt(text, timeout, True, True)[0]
 
 
-def minimise(named, timeout_ms):
-    cur = list(named)
-    for a in list(named):
-        t = [x for x in cur if x is not a]
-        if refuted([f for _, f in t], timeout_ms):
+def minimise(idxs, timeout):
+    cur = list(idxs)
+    for a in list(idxs):
+        t = [x for x in cur if x != a]
+        if job(("", t, timeout))[2] == "unsat":
             cur = t
-    return [n for n, _ in cur]
+    return [AX[i][0] for i in cur]
+
+
+def opt(name, default):
+    return int(sys.argv[sys.argv.index(name) + 1]) if name in sys.argv else default
 
 
 def main():
-    timeout = 20000
-    if "--timeout" in sys.argv:
-        timeout = int(sys.argv[sys.argv.index("--timeout") + 1])
+    timeout, window, stride = opt("--timeout", 8000), opt("--window", 16), opt("--stride", 6)
     R = contracts.build()
     eng = Exec(Repo(), R)
-    ax = list(eng.axioms)
-    print(f"{len(ax)} axioms")
-    bad = False
+    # theory axioms that are added lazily (format templates, counts, ...) appear once the functions using them were visited
+    for key, c in R.contracts.items():
+        if not (c.inline or c.assumed):
+            try:
+                eng.verify(key)
+            except Exception:
+                pass
+    AX.extend(eng.axioms)
+    n = len(AX)
+    print(f"{n} axioms")
+    jobs = [("all together", list(range(n)), 6 * timeout)]
+    for i in range(0, n, stride):
+        jobs.append((f"window {i}..{min(n, i + window)}", list(range(i, min(n, i + window))), timeout))
     t0 = time.time()
-    who = refuted([f for _, f in ax], 3 * timeout)
-    print(f"all together: {'UNSAT by ' + who if who else 'not refuted'} ({time.time() - t0:.1f}s)")
-    if who:
-        bad = True
-        print("  minimal inconsistent subset:", minimise(ax, timeout))
-    # sliding windows (axioms are registered theory by theory) and one-against-the-base-theory
-    base = ax[:80]
-    for i in range(0, len(ax), 25):
-        grp = ax[i:i + 50]
-        who = refuted([f for _, f in grp], timeout)
-        if who:
-            bad = True
-            print(f"group {i}..{i + 50}: UNSAT by {who}; minimal subset:", minimise(grp, timeout))
-    for n, f in ax[80:]:
-        who = refuted([g for _, g in base] + [f], timeout // 2)
-        if who:
-            bad = True
-            print(f"axiom {n} + base theory: UNSAT by {who}; minimal subset:", minimise(base + [(n, f)], timeout // 2))
+    bad = []
+    with cf.ProcessPoolExecutor(max_workers=16, mp_context=mp.get_context("fork")) as ex:
+        for label, idxs, r in ex.map(job, jobs, chunksize=1):
+            if r == "unsat":
+                bad.append((label, idxs))
+    print(f"{len(jobs)} queries in {time.time() - t0:.1f}s")
+    seen = set()
+    for label, idxs in bad:
+        core = tuple(minimise(idxs, timeout))
+        if core not in seen:
+            seen.add(core)
+            print(f"INCONSISTENT ({label}): {list(core)}")
     print("INCONSISTENT" if bad else "no inconsistency found (not a proof of consistency)")
     return 1 if bad else 0
 
